@@ -24,7 +24,48 @@ vars == <<obj, act>>
 
 Flows == {"key", "sig"}
 Fmts(kk) == IF kk = "priv" THEN {"PEM", "DER"} ELSE {"PEM", "DER", "NXP"}        \* NXP raw exists for public keys only
-Pwds(kk) == IF kk = "priv" THEN {"none", "pw"} ELSE {"none"}
+\* ---- passwords ("all encodings x passwords").  A password is any non-empty text; the container is encrypted with exactly
+\* that text (UTF-8) and opens with exactly that text - nothing is trimmed, folded, normalised or cut on either side.  The
+\* classes are the shapes of text that a one-sided "clean-up" treats differently: white space in front / at the end
+\* (blank, tab, CR, LF, CR LF, no-break space), white space inside, letter case, a composed / decomposed accent, a long text
+\* and its prefix, a single character, a single blank.  Each class except the centre of its family is a NEAR MISS of that
+\* centre (equal after such a clean-up); a near miss is a different password and is refused like any other.
+PwBase == {"lead-sp", "trail-sp", "both-sp", "lead-tab", "trail-tab", "trail-cr", "trail-lf", "trail-crlf", "lead-lf",
+           "trail-nbsp", "inner-sp", "upper"}                                        \* near misses of "plain"
+PwClasses == {"plain"} \cup PwBase \cup {"non-ascii", "non-ascii-nfd", "long", "long-cut", "single", "single-sp", "blank"}
+Centre(p) == IF p \in PwBase THEN "plain" ELSE IF p = "non-ascii-nfd" THEN "non-ascii" ELSE IF p = "long-cut" THEN "long"
+             ELSE IF p = "single-sp" THEN "single" ELSE p
+Near(p) == IF Centre(p) = p THEN {q \in PwClasses : q # p /\ Centre(q) = p} ELSE {Centre(p)}
+Pwds(kk) == IF kk = "priv" THEN {"none"} \cup PwClasses ELSE {"none"}
+\* what may be offered to a container: nothing, its password, a near miss of it, an unrelated text
+Givens(pwd) == IF pwd = "none" THEN {"none"} ELSE {"none", "wrong", pwd} \cup Near(pwd)
+\* the concrete text really has the shape its class promises.  w: number of code points, first / last / last but one code
+\* point, white space strictly inside, code points >= 128 that are not white space, combining marks, lower-case ASCII letters
+IsWs(c) == c \in {9, 10, 11, 12, 13, 28, 29, 30, 31, 32, 133, 160}
+Tight(w) == ~IsWs(w.first) /\ ~IsWs(w.last)
+PwBinds(pc, w) ==
+  /\ w.n >= 1
+  /\ CASE pc = "plain"         -> Tight(w) /\ w.inner = 0 /\ w.hi = 0 /\ w.lower >= 1 /\ w.n >= 8 /\ w.n < 50
+       [] pc = "lead-sp"       -> w.first = 32 /\ ~IsWs(w.last) /\ w.inner = 0 /\ w.n >= 9
+       [] pc = "trail-sp"      -> w.last = 32 /\ ~IsWs(w.first) /\ w.inner = 0 /\ w.n >= 9
+       [] pc = "both-sp"       -> w.first = 32 /\ w.last = 32 /\ w.inner = 0 /\ w.n >= 10
+       [] pc = "lead-tab"      -> w.first = 9 /\ ~IsWs(w.last) /\ w.inner = 0 /\ w.n >= 9
+       [] pc = "trail-tab"     -> w.last = 9 /\ ~IsWs(w.first) /\ w.inner = 0 /\ w.n >= 9
+       [] pc = "trail-cr"      -> w.last = 13 /\ ~IsWs(w.first) /\ w.inner = 0 /\ w.n >= 9
+       [] pc = "trail-lf"      -> w.last = 10 /\ ~IsWs(w.first) /\ w.inner = 0 /\ w.n >= 9
+       [] pc = "trail-crlf"    -> w.last = 10 /\ w.prev = 13 /\ ~IsWs(w.first) /\ w.inner = 1 /\ w.n >= 10
+       [] pc = "lead-lf"       -> w.first = 10 /\ ~IsWs(w.last) /\ w.inner = 0 /\ w.n >= 9
+       [] pc = "trail-nbsp"    -> w.last = 160 /\ ~IsWs(w.first) /\ w.inner = 0 /\ w.n >= 9
+       [] pc = "inner-sp"      -> Tight(w) /\ w.inner >= 1 /\ w.hi = 0 /\ w.n >= 8
+       [] pc = "upper"         -> Tight(w) /\ w.inner = 0 /\ w.hi = 0 /\ w.lower = 0 /\ w.n >= 8
+       [] pc = "non-ascii"     -> Tight(w) /\ w.hi >= 1 /\ w.comb = 0
+       [] pc = "non-ascii-nfd" -> Tight(w) /\ w.hi >= 1 /\ w.comb >= 1
+       [] pc = "long"          -> Tight(w) /\ w.n >= 100 /\ w.n <= 1000
+       [] pc = "long-cut"      -> Tight(w) /\ w.n >= 50 /\ w.n < 100
+       [] pc = "single"        -> w.n = 1 /\ Tight(w)
+       [] pc = "single-sp"     -> w.n = 2 /\ ~IsWs(w.first) /\ w.last = 32
+       [] pc = "blank"         -> w.n = 1 /\ w.first = 32
+       [] OTHER                -> FALSE
 ExpLens(kt, fmt) == IF kt = "rsa" /\ fmt = "NXP" THEN {3, 4} ELSE {0}             \* width of the RSA exponent in NXP form
 Entries == {"typed", "auto", "any", "file", "cli"}    \* PublicKeyEcc.parse | PublicKey.parse | extract_public_key_from_data | save + load | nxpcrypto key convert
 Exporters == {"spsdk", "indep", "cli"}
@@ -52,13 +93,14 @@ Export(fmt, pwd, el, by) ==
   /\ (by = "cli" => pwd = "none" /\ (fmt = "NXP" => obj.kt = "ecc"))
   /\ obj' = [obj EXCEPT !.form = "bytes", !.fmt = fmt, !.pwd = pwd]
   /\ act' = [a |-> "Export", fmt |-> fmt, pwd |-> pwd, el |-> el, by |-> by,
-             len |-> IF fmt = "NXP" THEN NxpLen(obj.kt, obj.size, el) ELSE 0, encrypted |-> pwd = "pw"]
+             len |-> IF fmt = "NXP" THEN NxpLen(obj.kt, obj.size, el) ELSE 0, encrypted |-> pwd # "none"]
 \* Parsing with the right password (or none for an open container) yields THE key; an encrypted container refuses
-\* every other attempt.  A password offered for an open container is outside the stated domain (no action).
+\* every other attempt - no password, an unrelated one, a near miss.  A password offered for an open container is outside the
+\* stated domain (no action).
 Parse(entry, given, by) ==
   /\ obj.flow = "key" /\ obj.form = "bytes"
   /\ entry \in Entries /\ by \in Parsers /\ (by = "indep" => entry = "typed") /\ (entry = "cli" => obj.pwd = "none")
-  /\ given \in (IF obj.pwd = "pw" THEN {"pw", "none", "wrong"} ELSE {"none"})
+  /\ given \in Givens(obj.pwd)
   /\ IF given = obj.pwd
      THEN /\ obj' = [obj EXCEPT !.form = "object", !.fmt = "-", !.pwd = "none",
                                 !.kk = IF entry = "any" THEN "pub" ELSE @]        \* extract_public_key_from_data returns the public half
@@ -90,8 +132,8 @@ Verify(Q, by) ==
   /\ act' = [a |-> "Verify", Q |-> Q, by |-> by, res |-> VerifyExpected(obj.hash, obj.pad, obj.intact, Q, obj.dflt)]
   /\ UNCHANGED obj
 
-DoExport == \E fmt \in {"PEM", "DER", "NXP"}, pwd \in {"none", "pw"}, el \in {0, 3, 4}, by \in Exporters : Export(fmt, pwd, el, by)
-DoParse == \E entry \in Entries, given \in {"pw", "none", "wrong"}, by \in Parsers : Parse(entry, given, by)
+DoExport == \E fmt \in {"PEM", "DER", "NXP"}, pwd \in {"none"} \cup PwClasses, el \in {0, 3, 4}, by \in Exporters : Export(fmt, pwd, el, by)
+DoParse == \E entry \in Entries, given \in {"none", "wrong"} \cup PwClasses, by \in Parsers : Parse(entry, given, by)
 DoToPublic == ToPublic
 DoSign == \E P \in SignParams(obj.kt), by \in Signers : Sign(P, by)
 DoReencode == \E to \in {"raw", "der"}, via \in Vias : Reencode(to, via)
@@ -109,6 +151,11 @@ ContainerSane == obj.form = "bytes" => obj.fmt \in Fmts(obj.kk) /\ obj.pwd \in P
 NoResurrection == [][obj.kk = "pub" => obj'.kk = "pub"]_vars
 \* parsing succeeds iff the password matches, and then always
 ParseTotal == [][act'.a = "Parse" => (act'.res = "same" <=> act'.given = obj.pwd) /\ act'.res \in {"same", "refused"}]_vars
+\* a near miss never opens a container, and every password has its own near misses offered (the case space is not hollow)
+NearMissRefused == [][act'.a = "Parse" /\ obj.pwd # "none" /\ act'.given \in Near(obj.pwd) => act'.res = "refused" /\ obj' = obj]_vars
+NearSane == \A p \in PwClasses : p \notin Near(p) /\ Near(p) \subseteq PwClasses /\ (p # "blank" => Near(p) # {})
+            /\ \A q \in Near(p) : p \in Near(q)
+ASSUME NearSane
 \* once tampered, nothing verifies any more; untampered, exactly the diagonal verifies - whoever verifies, pre-hashed or not,
 \* and whatever the encoding of the signature is at that moment
 OnlyDiagonalVerifies == [][act'.a = "Verify" =>
